@@ -3,6 +3,7 @@ pub mod tt;
 pub mod engine;
 pub mod walk;
 pub mod big;
+pub mod prodform;
 #[macro_use]
 pub mod bddi;
 pub mod cnfgen;
